@@ -58,7 +58,16 @@ DEEP = {"parens": "(" * 4000 + ")" * 4000, "open-parens": "(" * 4000, "quotes": 
         "long-complex": "1" * 2000 + "+" + "2" * 2000 + "j", "long-number-with-separators": "1_" * 3000 + "1", "long-keyword": ":" + "k" * 5000,
         "long-keyword-with-dots": ":" + "a." * 2000, "long-symbol-with-digits-and-dots": "1." * 2000 + "a", "long-sign-run": "-" * 5000,
         "long-reader-macro-name": "#" + "m" * 5000 + " 1", "long-string-of-escapes": '"' + "\\n" * 20000 + '"',
-        "long-named-escape": '"\\N{' + "A" * 5000 + '}"', "long-format-spec": 'f"{x :' + ">" * 5000 + '}"'}
+        "long-named-escape": '"\\N{' + "A" * 5000 + '}"', "long-format-spec": 'f"{x :' + ">" * 5000 + '}"',
+        # long runs of what stands *between* forms (at top level the reader handles these outside the per-form error conversion)
+        "long-space-run-between-forms": "a" + " " * 5000 + "b", "long-space-run-before-the-first-form": " " * 5000 + "1",
+        "long-space-run-after-the-last-form": "1" + " " * 5000, "only-spaces": " " * 5000, "only-newlines": "\n" * 5000,
+        "long-mixed-whitespace-run": "a" + " \t\n\r\x0c" * 1500 + "b", "long-space-run-in-a-list": "[a" + " " * 5000 + "b]",
+        "long-space-run-in-an-unclosed-list": "(a" + " " * 5000, "long-space-run-in-an-f-string-field": 'f"{' + " " * 5000 + 'x}"',
+        "long-run-of-comment-lines": ";c\n" * 5000 + "a", "long-run-of-commas-and-spaces": "[a" + " , " * 2000 + "b]",
+        "long-space-run-after-a-reader-macro": "#*" + " " * 5000 + "a", "long-space-run-after-a-quote": "'" + " " * 5000 + "a",
+        "long-run-of-shebang-like-lines": "#!x\n" + "\n" * 3000 + "a", "long-space-run-before-a-closing-bracket": "(a" + " " * 5000 + ")",
+        "long-non-breaking-space-run": "a" + "\xa0" * 3000 + "b", "long-space-run-in-a-dict": "{a" + " " * 5000 + "b}"}
 
 # nesting at *moderate* depths (below every recursion limit): reading time must not grow exponentially with the depth.  The very deep
 # texts of DEEP end early with an error; a reader that does twice the work per level is only visible between depths ~10 and ~60.
